@@ -12,7 +12,7 @@
    add_or_set_value is v_add started from VVoid).  Commodities are unannotated
    symbols.  A transaction is known to the handlers only through its address
    (`post->xact`), which is modelled by an integer identity `pxact`. *)
-From LedgerV Require Import Base.Prelude Base.Round Model.Amount.
+From LedgerV Require Import Base.Prelude Base.Round Model.Amount Gen.ByPayeeLabel.
 Local Open Scope Z_scope.
 
 (* the payee text of the (possibly temporary) transaction a posting belongs to:
@@ -20,6 +20,8 @@ Local Open Scope Z_scope.
    value date of the range; the weekday name ("%As") written by day_of_week_posts *)
 Inductive payee : Type :=
 | PName (s : str)
+| PFmt (s : str) (d : Z)   (* strftime(s) for the date d: by_payee_posts hands the payee name
+                              to report_subtotal as a date format (finding F70) *)
 | PUntil (d : Z)
 | PDow (k : Z).
 
@@ -198,19 +200,42 @@ Fixpoint payee_buckets (m : list (str * list post)) (l : list post) : res (list 
   | p :: l' => do k <- payee_text p; payee_buckets (bucket_insert k p m) l'
   end.
 
-Fixpoint report_buckets {K} (py : K -> payee) (b : Z) (m : list (K * list post)) : res (list post) :=
+Fixpoint report_buckets {K} (py : K -> list post -> payee) (b : Z) (m : list (K * list post)) : res (list post) :=
   match m with
   | [] => Ok []
   | (k, ps) :: m' =>
-      do r <- subtotal_group (fun _ => py k) (xid_subtotal b) ps;
+      do r <- subtotal_group (py k) (xid_subtotal b) ps;
       do rs <- report_buckets py (b + 1) m';
       Ok (r ++ rs)
   end.
 
-(* the payee of the temporary transaction is report_subtotal's spec_fmt, the payee text
-   (used as a date format: it must not contain '%') *)
-Definition by_payee (l : list post) : res (list post) :=
-  do m <- payee_buckets [] l; report_buckets PName 0 m.
+(* The payee of a bucket's temporary transaction.  by_payee_posts::flush calls
+   report_subtotal(pair.first.c_str()): the payee name arrives as spec_fmt and is run through
+   format_date(range_finish, FMT_CUSTOM, name), i.e. std::strftime into a 128-byte buffer
+   (times.cc:74-79).  A name without '%' and shorter than 127 bytes comes out unchanged;
+   otherwise the label is the formatted text (and undefined from 127 bytes on).  How the
+   source does it is read from the source on every run (Gen/ByPayeeLabel.v): once the name
+   is copied literally the label is the name. *)
+Fixpoint has_percent (s : str) : bool :=
+  match s with
+  | [] => false
+  | c :: s' => (c =? 37) || has_percent s'
+  end.
+
+Definition payee_label (mode : payee_label_mode) (k : str) (comps : list post) : payee :=
+  match mode with
+  | LabelStrftime =>
+      if has_percent k || (127 <=? Z.of_nat (length k)) then PFmt k (range_finish comps) else PName k
+  | _ => PName k
+  end.
+
+Definition by_payee_mode (mode : payee_label_mode) (l : list post) : res (list post) :=
+  match mode with
+  | LabelUnknown => Err EOther
+  | _ => do m <- payee_buckets [] l; report_buckets (payee_label mode) 0 m
+  end.
+
+Definition by_payee (l : list post) : res (list post) := by_payee_mode src_by_payee_label l.
 
 (* boost day_of_week(): 0 = Sunday; 1970-01-01 was a Thursday *)
 Definition day_of_week (d : Z) : Z := (d + 4) mod 7.
@@ -220,7 +245,7 @@ Definition dow_bucket (i : Z) (l : list post) : list post :=
   filter (fun p => day_of_week (pdate p) =? i) l.
 
 Definition day_of_week_posts (l : list post) : res (list post) :=
-  report_buckets PDow 0 (map (fun i => (i, dow_bucket i l)) [0; 1; 2; 3; 4; 5; 6]).
+  report_buckets (fun k _ => PDow k) 0 (map (fun i => (i, dow_bucket i l)) [0; 1; 2; 3; 4; 5; 6]).
 
 (* ------------------------------------------------------------------- collapse_posts *)
 
@@ -243,16 +268,17 @@ Fixpoint take_segs (n : nat) (s : str) : str :=
 Definition totals_key (depth : Z) (p : post) : str :=
   if depth =? 0 then total_name else take_segs (Z.to_nat depth) (pacct p).
 
-(* totals: std::map<account_t *, value_t> - iterated in ADDRESS order, which the model
-   does not know: entries are kept in order of first use and every statement about
-   them (and the comparison with ledger) is up to the order of a group's rows *)
+(* totals: std::map<account_t *, value_t, compare_account_names> - iterated in the order of
+   the accounts' full names (filters.h:431-442; before /repo 9907b66 in address order) *)
 Fixpoint totals_add (k : str) (v : value) (m : list (str * value)) : res (list (str * value)) :=
   match m with
   | [] => Ok [(k, v)]            (* add_or_set_value on a fresh (null) entry *)
   | (k', v') :: m' =>
-      if str_eqb k k'
-      then do s <- v_add false v' v; Ok ((k', s) :: m')
-      else do r <- totals_add k v m'; Ok ((k', v') :: r)
+      match str_compare k k' with
+      | Lt => Ok ((k, v) :: m)
+      | Eq => do s <- v_add false v' v; Ok ((k', s) :: m')
+      | Gt => do r <- totals_add k v m'; Ok ((k', v') :: r)
+      end
   end.
 
 Fixpoint totals_feed (depth : Z) (m : list (str * value)) (l : list post) : res (list (str * value)) :=
